@@ -95,7 +95,7 @@ def model_check(wd, name, c, invariants, properties=(), spec="Spec", maxpolls=2,
 
 _pc_re = re.compile(r"/\\ pc = \[(.*?)\]\s*(?:\n/\\|$)", re.S)
 _wret_re = re.compile(r"/\\ wret = [\[(](.*?)[\])]\s*(?:\n/\\|$)", re.S)
-PARKED = {"w.blocked", "m.wait", "r.blocked", "v.wait"}
+PARKED = {"w.blocked", "m.wait", "r.blocked", "v.wait", "msg.wait"}
 
 
 def node_sig(label):
